@@ -192,6 +192,27 @@ def threshold_menu(p):
     return menu
 
 
+def sharp_class_menu(p):
+    """The positive-weight classes of `uniform(0,1) < p` only, each represented by the reachable value *nearest the
+    threshold* on its side (largest grid value < p; smallest grid value >= p).  Same classes and weights as
+    threshold_menu's positive-weight entries, but any shift of the threshold used by the code (a cap, a floor, a
+    rounded or stale probability) puts one of the two representatives on the wrong side."""
+    p = float(p)
+    P = Fraction(p)
+    if p <= 0.0:
+        return [(0.0, Fraction(1), False)]
+    if p >= 1.0:
+        return [((TWO53 - 1) / TWO53, Fraction(1), True)]
+    k = Fraction(p) * TWO53
+    lo = (math.ceil(k) - 1) / TWO53          # largest multiple of 2^-53 strictly below p
+    hi = math.ceil(k) / TWO53                # smallest multiple of 2^-53 at or above p
+    assert 0.0 <= lo < p <= hi < 1.0 or (hi == 1.0)
+    if hi >= 1.0:
+        hi = (TWO53 - 1) / TWO53
+        assert not (hi < p)
+    return [(hi, 1 - P, False), (lo, P, True)]
+
+
 class Handler:
     """Base: holds the chooser."""
 
@@ -209,7 +230,7 @@ class MeiosisHandler(Handler):
         self.thr = [float(t) for t in thresholds]
         self.menus = [threshold_menu(t) for t in self.thr]
         if mode == "classes":
-            self.menus = [[e for e in m if e[1] > 0] for m in self.menus]
+            self.menus = [sharp_class_menu(t) for t in self.thr]
         self.draws = []   # per call: (shape, values, crossover flags)
 
     def uniform(self, gen, low, high, size):
